@@ -11,7 +11,7 @@ use crate::Ctx;
 use refimpl as r;
 use serde_json::json;
 
-const RULE: &str = "seeds: all-0, all-FF, 256 single-bit seeds (thorough), random, plus seeds pre-selected by running the instrumented reference over tens of thousands of candidates for rare events (A*s1+s2 wrapping past q or below 0 before reduction, about 1 seed in 10^4; three-byte sample == q or q+-1); each through KG::keygen_from_seed, the module-level try_keygen_with_rng and KG::try_keygen_with_rng under a recording RNG whose script is seed || random tail. into_bytes() of both keys must equal the reference KeyGen_internal pkEncode/skEncode bytes; RNG log must be one try_fill_bytes(32) consuming exactly the seed; different tails and repeated calls must not change the keys. Non-trivial = distinct seeds for which all three entry points matched the reference.";
+const RULE: &str = "seeds: all-0, all-FF, 256 single-bit seeds (thorough), random, plus seeds pre-selected by running the instrumented reference over tens of thousands of candidates for rare events (A*s1+s2 wrapping past q or below 0 before reduction, about 1 seed in 10^4; three-byte sample == q or q+-1; a RejBoundedPoly call needing more than two SHAKE256 blocks, found by a SHAKE-only scan of 16x as many candidates); each through KG::keygen_from_seed, the module-level try_keygen_with_rng and KG::try_keygen_with_rng under a recording RNG whose script is seed || random tail. into_bytes() of both keys must equal the reference KeyGen_internal pkEncode/skEncode bytes; RNG log must be one try_fill_bytes(32) consuming exactly the seed; different tails and repeated calls must not change the keys. Non-trivial = distinct seeds for which all three entry points matched the reference.";
 
 pub fn run(ctx: &Ctx) -> StageOut {
     let mut acc = Acc::new();
@@ -133,7 +133,7 @@ fn run_set<S: PS>(ctx: &Ctx) -> Acc {
     let rare = rare_keygen_seeds(ctx, p, n_scan);
     let mut tag_names: Vec<&'static str> = Vec::new();
     for r in &rare {
-        let tag: &'static str = if r.tags.iter().any(|t| t == "t-wrap-high") { "rare-t-wrap-high" } else if r.tags.iter().any(|t| t == "t-wrap-low") { "rare-t-wrap-low" } else { "rare-three-byte" };
+        let tag: &'static str = if r.tags.iter().any(|t| t == "t-wrap-high") { "rare-t-wrap-high" } else if r.tags.iter().any(|t| t == "t-wrap-low") { "rare-t-wrap-low" } else if r.tags.iter().any(|t| t == "rbp-over-2-blocks") { "rare-rbp-over-2-blocks" } else { "rare-three-byte" };
         seeds.push((r.xi, tag));
         tag_names.push(tag);
     }
@@ -146,7 +146,7 @@ fn run_set<S: PS>(ctx: &Ctx) -> Acc {
     let mut acc = Acc::merge_all(accs);
     acc.count("seeds_scanned_for_rare_events", n_scan as u64);
     acc.count("rare_seeds_checked", n_rare as u64);
-    for t in ["rare-t-wrap-high", "rare-t-wrap-low", "rare-three-byte"] {
+    for t in ["rare-t-wrap-high", "rare-t-wrap-low", "rare-rbp-over-2-blocks", "rare-three-byte"] {
         acc.count(&format!("seeds_{t}"), tag_names.iter().filter(|x| **x == t).count() as u64);
     }
     if n_rare == 0 {
